@@ -102,7 +102,7 @@ def _compile(src):
 class Env(dict):
     """Name lookup: explicit bindings -> lets (lazy) -> spec fns -> BASE."""
 
-    def __init__(self, contract, bindings, universe=None):
+    def __init__(self, contract, bindings, universe=None, spec_from=None):
         super().__init__(BASE)
         self.contract = contract
         self.update(bindings)
@@ -118,6 +118,11 @@ class Env(dict):
 
         self["forall"] = forall
         for name, src in contract.spec.items():
+            if spec_from is not None:
+                # spec functions are closed over the PRE-state (as the prover's
+                # axioms are): evaluate them against the pre-state copy
+                self[name] = spec_from[name]
+                continue
             code = compile(ast.parse(textwrap.dedent(src)), f"<spec {name}>", "exec")
             ns = self
             exec(code, ns)  # defines ns[name]; its globals are this Env (lets resolve lazily)
@@ -134,8 +139,8 @@ class Env(dict):
         raise KeyError(key)
 
 
-def evaluate(contract, clause, bindings, universe=None):
-    env = Env(contract, bindings, universe)
+def evaluate(contract, clause, bindings, universe=None, spec_from=None):
+    env = Env(contract, bindings, universe, spec_from=spec_from)
     return eval(_compile(clause), env)
 
 
@@ -154,6 +159,8 @@ def check_call(contract, fn, args, kwargs=None, argnames=None, universe=None, ch
     for n, d in contract.defaults.items():
         if n not in bindings:
             bindings[n] = eval(d)
+    for gname, (gtype, gexpr) in contract.ghost.items():
+        bindings[gname] = evaluate(contract, gexpr, dict(bindings), universe)
     if check_pre:
         for pre in contract.requires:
             if not evaluate(contract, pre, bindings, universe):
@@ -182,8 +189,8 @@ def check_call(contract, fn, args, kwargs=None, argnames=None, universe=None, ch
     post_bind["result"] = result
     post_bind["__old__"] = __old__
     post_bind["fresh_ref"] = lambda x: id(x) not in ids_before
-    for post in contract.ensures:
-        ok = evaluate(contract, post, post_bind, universe)
+    for post in list(contract.ensures) + list(contract.ensures_rt):
+        ok = evaluate(contract, post, post_bind, universe, spec_from=old_env)
         if not ok:
             raise ContractViolation("post", post, f"result={result!r}")
     return result
